@@ -95,6 +95,34 @@ func checkC08(cx *Ctx, r *Report) {
 			}
 		}
 	}
+	// ... and once the storage has taken the request the step does not fail any more: a test made after the call
+	// (`if ctx.Err() != nil { return errTooLate }`) answers a persisted request with a failure reply
+	if len(persistCalls) == 1 {
+		if pcall, isCall := persistCalls[0].(*ssa.Call); isCall {
+			pf := pcall.Parent()
+			res := pf.Signature.Results()
+			if e, has, _ := errResult(pcall); has && e != nil && res.Len() > 0 && isErrorType(res.At(res.Len()-1).Type()) {
+				if aps, okp := fx.atomPaths(pf, 2048); okp {
+					bad := ""
+					for i := range aps {
+						p := &aps[i]
+						if p.Ret == nil || !p.Has(pcall.Block()) {
+							continue
+						}
+						sawNonNil, sawNil := fx.errOutcomesOnPath(&p.Path, e)
+						if !sawNil || sawNonNil {
+							continue
+						}
+						rv := fx.retVal(p, res.Len()-1)
+						if _, nonNil := fx.errNilness(p, rv); nonNil || isFreshError(rv) {
+							bad = "after Storage.CreateAuthRequest returned without error the step can still fail (" + w.InstrPos(p.Ret) + "): the request is stored and the browser gets a failure reply instead of the redirect to login"
+						}
+					}
+					r.Check(bad == "", "R-ORDER", "sso:persist-then-pass", w.InstrPos(pcall), "no failing return after the storage call succeeded", bad)
+				}
+			}
+		}
+	}
 	// "persisted and redirected, or nothing persisted and a failure reply": when the storage call fails the persist step
 	// fails - its error is tested or handed on in every function between the call and the step's verdict (R-ERR)
 	if k.persist != nil {
